@@ -383,7 +383,7 @@ class Enumerator:
         self.truncated = 0
         self._budget = 0
         self._try_depth = 1 if self.exc_edges == "all" else 0
-        body = fn.node.body if not isinstance(fn.node, ast.Lambda) else [ast.Return(value=fn.node.body)]
+        body = self._body_of(fn) if not isinstance(fn.node, ast.Lambda) else [ast.Return(value=fn.node.body)]
         out = []
         for s, oc in self.block(body, st):
             if oc[0] in ("break", "continue"):
@@ -545,6 +545,12 @@ class Enumerator:
 
         return iterate(st, 0)
 
+    def _body_of(self, fn: FuncInfo):
+        if getattr(self, "comps_for_loops", False):
+            from .normalize import comps_for_loops_body
+            return comps_for_loops_body(fn.node)
+        return fn.node.body
+
     def _gen_callee(self, call: ast.Call, st: St):
         """The package generator function `call` would be inlined as, or None."""
         if self.inline_pred is None or self.r is None or not isinstance(call, ast.Call):
@@ -610,7 +616,7 @@ class Enumerator:
                 hook.callee = callee
                 self._yield_hooks.append(hook)
                 try:
-                    body_res = self.block(callee.node.body, st_in)
+                    body_res = self.block(self._body_of(callee), st_in)
                 finally:
                     self._yield_hooks.pop()
                 out = []
@@ -1374,7 +1380,7 @@ class Enumerator:
         st_in = st.emit(Ev("enter", N(callee.qualname), call, st.fn, {"callee": callee}))
         st_in = st_in.with_env(env, caller_frames + (callee,))
         out = []
-        for st2, oc in self.block(callee.node.body, st_in):
+        for st2, oc in self.block(self._body_of(callee), st_in):
             st_back = st2.with_env(caller_env, caller_frames)
             is_ctor = callee.name == "__init__" and isinstance(call.func, ast.Name) and isinstance(env.get("self"), ast.Name) \
                 and env["self"].id.startswith("$new:")
